@@ -13,7 +13,10 @@ macro_rules! harness_list {
         $m!(c02_cas_n7, 18, scen::c02_cas::<8>);
         $m!(c02_cas_n3, 18, scen::c02_cas::<4>);
         $m!(c03_one_txn_n7, 18, scen::c03_one_txn::<8, 4>);
-        $m!(c03_pairs_n2, 18, scen::c03_pairs::<4>);
+        $m!(c03_pairs_n2_av_av, 18, scen::c03_pairs::<4, 0, 0>);
+        $m!(c03_pairs_n2_av_as, 18, scen::c03_pairs::<4, 0, 2>);
+        $m!(c03_pairs_n2_as_av, 18, scen::c03_pairs::<4, 2, 0>);
+        $m!(c03_pairs_n2_as_as, 18, scen::c03_pairs::<4, 2, 2>);
         $m!(c03_race_replace, 18, scen_race::c03_race_replace);
         $m!(c03_race_err, 18, scen_race::c03_race_err);
         $m!(c04_atomic_ack_n7_k0, 18, scen::c04_atomic_ack::<8, 0>);
@@ -29,6 +32,7 @@ macro_rules! harness_list {
         $m!(c07_frame_n7_k2, 18, scen::c07_frame::<8, 2>);
         $m!(c07_frame_n4_rd, 18, scen::c07_frame::<5, 4>);
         $m!(c08_table_n7, 18, scen::c08_table::<8>);
+        $m!(c09_nonint_n3, 18, scen::c09_nonint::<4>);
         $m!(c09_nonint_n4, 18, scen::c09_nonint::<5>);
         $m!(c10_none_n7, 18, scen::c10_none_8);
         $m!(c10_prev_n7, 18, scen::c10_prev_8);
